@@ -56,10 +56,15 @@ type Engine struct {
 	// MaxMake is the largest allocation size accepted for a non-constant make().
 	MaxMake int64
 	seenReq map[string]bool
-	// sumNonNeg[f][j] = parameter indices that must be >= 0 for result j to be >= 0
+	// sumNonNeg[f][j] = parameter indices that must be >= 0 for result j to be >= sumLow[f][j] (0 or -1)
 	sumNonNeg map[*ssa.Function]map[int][]int
+	sumLow    map[*ssa.Function]map[int]int64
 	// sumUpper[f][{j,k}]: result j <= len(parameter k)
 	sumUpper map[*ssa.Function]map[[2]int]bool
+	// fieldLen / globalLen: slice-typed struct fields and package variables whose every
+	// assignment in the program stores a value of the same constant length
+	fieldLen  map[*types.Var]int64
+	globalLen map[*ssa.Global]int64
 }
 
 func New(p *model.Prog) *Engine {
@@ -145,8 +150,15 @@ func (e *Engine) collectSuccess(c *fnCtx) {
 // factsAt gathers guard facts, success facts and definition facts relevant to goal.
 func (e *Engine) factsAt(c *fnCtx, at ssa.Instruction, goal Lin, hyp []Ineq) []Ineq {
 	var facts []Ineq
+	var diseq []Lin
 	for _, g := range model.Guards(at.Block()) {
 		facts = append(facts, c.guardIneqs(g.Cond, g.Polarity)...)
+		if d, ok := c.guardDiseq(g.Cond, g.Polarity); ok {
+			diseq = append(diseq, d)
+		}
+	}
+	for _, h := range hyp {
+		_ = h
 	}
 	for _, sf := range c.success {
 		if sf.at != at && dominatesInstr(sf.at, at) {
@@ -212,7 +224,38 @@ func (e *Engine) factsAt(c *fnCtx, at ssa.Instruction, goal Lin, hyp []Ineq) []I
 			}
 		}
 	}
+	// x != k together with x >= k (or x <= k) tightens to x >= k+1 (x <= k-1)
+	for _, d := range diseq {
+		touch := false
+		for a := range d.C {
+			if rel[a] {
+				touch = true
+			}
+		}
+		if !touch {
+			continue
+		}
+		for _, a := range atomsOf(d) {
+			if !seenDef[a] {
+				seenDef[a] = true
+				used = append(used, c.defFacts(a)...)
+			}
+		}
+		if infeasible(append(append([]Ineq{}, used...), Ineq{d.Scale(-1).Add(Const(-1)), "d<=-1"})) {
+			used = append(used, Ineq{d.Add(Const(-1)), "guard != with lower bound"})
+		} else if infeasible(append(append([]Ineq{}, used...), Ineq{d.Add(Const(-1)), "d>=1"})) {
+			used = append(used, Ineq{d.Scale(-1).Add(Const(-1)), "guard != with upper bound"})
+		}
+	}
 	return used
+}
+
+func atomsOf(l Lin) []Atom {
+	var out []Atom
+	for a := range l.C {
+		out = append(out, a)
+	}
+	return out
 }
 
 // prove tries to establish goal (L>=0) at instruction at.
@@ -569,11 +612,12 @@ func (e *Engine) Run(roots map[*ssa.Function]bool) {
 		fns = append(fns, f)
 	}
 	sort.Slice(fns, func(i, j int) bool { return model.FnName(fns[i]) < model.FnName(fns[j]) })
+	e.computeLenInvariants()
 	e.computeNonNeg(fns)
 	if os.Getenv("LALCHECK_PO_DEBUG") != "" {
 		for _, fn := range fns {
 			if len(e.sumNonNeg[fn]) > 0 || len(e.sumUpper[fn]) > 0 {
-				fmt.Printf("SUMMARY %s nonneg=%v upper=%v\n", model.FnName(fn), e.sumNonNeg[fn], e.sumUpper[fn])
+				fmt.Printf("SUMMARY %s nonneg=%v low=%v upper=%v\n", model.FnName(fn), e.sumNonNeg[fn], e.sumLow[fn], e.sumUpper[fn])
 			}
 		}
 	}
@@ -590,6 +634,8 @@ func (e *Engine) Run(roots map[*ssa.Function]bool) {
 					}
 					if paramRooted(fn, g.L) {
 						newReqs[fn] = append(newReqs[fn], Req{G: g, Origin: ob})
+					} else if sg, ok := e.strengthenToParams(c, g); ok && paramRooted(fn, sg.L) {
+						newReqs[fn] = append(newReqs[fn], Req{G: sg, Origin: ob})
 					}
 				}
 			}
@@ -609,6 +655,11 @@ func (e *Engine) Run(roots map[*ssa.Function]bool) {
 							}
 							if ok2, _ := e.prove(c, in, g); ok2 {
 								continue
+							}
+							if !paramRooted(fn, g.L) {
+								if sg, ok := e.strengthenToParams(c, g); ok {
+									g = sg
+								}
 							}
 							if paramRooted(fn, g.L) && len(rq.Chain) < e.Depth {
 								newReqs[fn] = append(newReqs[fn], Req{G: g, Origin: rq.Origin, Chain: append(append([]string{}, rq.Chain...), model.FnName(callee))})
@@ -650,11 +701,17 @@ func (e *Engine) Run(roots map[*ssa.Function]bool) {
 					}
 					continue
 				}
-				if paramRooted(fn, g.L) && !roots[fn] && e.hasScopedCaller(fn) {
+				lg := g
+				if !paramRooted(fn, lg.L) {
+					if sg, ok := e.strengthenToParams(c, g); ok {
+						lg = sg
+					}
+				}
+				if paramRooted(fn, lg.L) && !roots[fn] && e.hasScopedCaller(fn) {
 					if ob.Status == Proved {
 						ob.Status = Lifted
 					}
-					proofs = append(proofs, "requires "+g.L.String()+">=0 of callers")
+					proofs = append(proofs, "requires "+lg.L.String()+">=0 of callers")
 					continue
 				}
 				ob.Status = Unproved
@@ -691,7 +748,13 @@ func (e *Engine) Run(roots map[*ssa.Function]bool) {
 						if ok2, _ := e.prove(c, in, g); ok2 {
 							continue
 						}
-						if paramRooted(fn, g.L) && !isRoot && len(rq.Chain) < e.Depth && e.hasScopedCaller(fn) {
+						lg := g
+						if !paramRooted(fn, lg.L) {
+							if sg, ok := e.strengthenToParams(c, g); ok {
+								lg = sg
+							}
+						}
+						if paramRooted(fn, lg.L) && !isRoot && len(rq.Chain) < e.Depth && e.hasScopedCaller(fn) {
 							continue // lifted further; decided at fn's callers
 						}
 						orig := origIndex[obKey(rq.Origin)]
@@ -752,6 +815,7 @@ func (e *Engine) calleesOf(ci ssa.CallInstruction) []*ssa.Function {
 // candidate and drop one when some return statement cannot be shown to satisfy it.
 func (e *Engine) computeNonNeg(fns []*ssa.Function) {
 	e.sumNonNeg = map[*ssa.Function]map[int][]int{}
+	e.sumLow = map[*ssa.Function]map[int]int64{}
 	e.sumUpper = map[*ssa.Function]map[[2]int]bool{}
 	for _, fn := range fns {
 		res := fn.Signature.Results()
@@ -774,6 +838,7 @@ func (e *Engine) computeNonNeg(fns []*ssa.Function) {
 			}
 		}
 		e.sumNonNeg[fn] = nn
+		e.sumLow[fn] = map[int]int64{}
 		e.sumUpper[fn] = up
 	}
 	for iter := 0; iter < 40; iter++ {
@@ -801,10 +866,15 @@ func (e *Engine) computeNonNeg(fns []*ssa.Function) {
 						continue
 					}
 					c.usedParams = map[int]bool{}
-					if l, ok := c.lowerConst(vals[i], 0); !ok || l < 0 {
-						delete(nn, i)
-						changed = true
-						continue
+					if l, ok := c.lowerConst(vals[i], 0); !ok || l < e.sumLow[fn][i] {
+						if ok && l == -1 && e.sumLow[fn][i] == 0 {
+							e.sumLow[fn][i] = -1 // "index or -1" results
+							changed = true
+						} else {
+							delete(nn, i)
+							changed = true
+							continue
+						}
 					}
 					if used[i] == nil {
 						used[i] = map[int]bool{}
@@ -842,4 +912,177 @@ func (e *Engine) computeNonNeg(fns []*ssa.Function) {
 			break
 		}
 	}
+}
+
+// computeLenInvariants finds slice-typed struct fields and package-level variables that only
+// ever hold values of one constant length: every store in lal+naza assigns a value whose
+// length is that constant, and (for fields) every function that allocates the owning struct
+// also assigns the field, so the zero value never escapes a constructor.
+func (e *Engine) computeLenInvariants() {
+	e.fieldLen = map[*types.Var]int64{}
+	e.globalLen = map[*ssa.Global]int64{}
+	type info struct {
+		k     int64
+		ok    bool
+		seen  bool
+		owner *types.Named
+	}
+	fields := map[*types.Var]*info{}
+	globals := map[*ssa.Global]*info{}
+	allocs := map[*types.Named][]*ssa.Function{}
+	storesIn := map[*ssa.Function]map[*types.Var]bool{}
+	note := func(i *info, c *fnCtx, val ssa.Value) {
+		l := c.seqLen(val)
+		if !l.IsConst() {
+			i.ok = false
+			return
+		}
+		if !i.seen {
+			i.seen, i.k, i.ok = true, l.K, true
+			return
+		}
+		if i.k != l.K {
+			i.ok = false
+		}
+	}
+	for _, fn := range e.P.AllFuncs() {
+		if len(fn.Blocks) == 0 {
+			continue
+		}
+		c := newFnCtx(fn)
+		for _, b := range fn.Blocks {
+			for _, in := range b.Instrs {
+				switch x := in.(type) {
+				case *ssa.Alloc:
+					if pt, ok := x.Type().(*types.Pointer); ok {
+						if n, ok := pt.Elem().(*types.Named); ok {
+							if _, isS := n.Underlying().(*types.Struct); isS {
+								allocs[n] = append(allocs[n], fn)
+							}
+						}
+					}
+				case *ssa.Store:
+					if _, isSl := x.Val.Type().Underlying().(*types.Slice); !isSl {
+						continue
+					}
+					switch a := x.Addr.(type) {
+					case *ssa.FieldAddr:
+						f := fieldOf(a)
+						if f == nil {
+							continue
+						}
+						i := fields[f]
+						if i == nil {
+							i = &info{}
+							fields[f] = i
+						}
+						note(i, c, x.Val)
+						if storesIn[fn] == nil {
+							storesIn[fn] = map[*types.Var]bool{}
+						}
+						storesIn[fn][f] = true
+					case *ssa.Global:
+						i := globals[a]
+						if i == nil {
+							i = &info{}
+							globals[a] = i
+						}
+						note(i, c, x.Val)
+					}
+				}
+			}
+		}
+	}
+	ownerOf := func(f *types.Var) *types.Named {
+		if f.Pkg() == nil {
+			return nil
+		}
+		sc := f.Pkg().Scope()
+		for _, n := range sc.Names() {
+			if tn, ok := sc.Lookup(n).(*types.TypeName); ok {
+				if named, ok := tn.Type().(*types.Named); ok {
+					if st, ok := named.Underlying().(*types.Struct); ok {
+						for i := 0; i < st.NumFields(); i++ {
+							if st.Field(i) == f {
+								return named
+							}
+						}
+					}
+				}
+			}
+		}
+		return nil
+	}
+	for f, i := range fields {
+		if !i.ok || !i.seen {
+			continue
+		}
+		owner := ownerOf(f)
+		if owner == nil {
+			continue
+		}
+		good := true
+		for _, fn := range allocs[owner] {
+			if !storesIn[fn][f] {
+				good = false
+			}
+		}
+		if good {
+			e.fieldLen[f] = i.k
+		}
+	}
+	for g, i := range globals {
+		if i.ok && i.seen {
+			e.globalLen[g] = i.k
+		}
+	}
+}
+
+// strengthenToParams replaces every atom of g that is not rooted at a parameter of fn by a
+// constant bound taken from its definition facts (upper bound for negative coefficients, lower
+// bound for positive ones). The result implies g; ok=false when some atom has no such bound.
+func (e *Engine) strengthenToParams(c *fnCtx, g Ineq) (Ineq, bool) {
+	out := Const(g.L.K)
+	changed := false
+	for a, coef := range g.L.C {
+		if p, ok := a.Root.(*ssa.Parameter); ok && p.Parent() == c.fn {
+			out = out.Add(Var(a).Scale(coef))
+			continue
+		}
+		var lo, hi *int64
+		for _, d := range c.defFacts(a) {
+			if len(d.L.C) != 1 {
+				continue
+			}
+			k, isA := d.L.C[a]
+			if !isA {
+				continue
+			}
+			// k*a + K >= 0
+			if k == 1 {
+				v := -d.L.K
+				if lo == nil || v > *lo {
+					lo = &v
+				}
+			} else if k == -1 {
+				v := d.L.K
+				if hi == nil || v < *hi {
+					hi = &v
+				}
+			}
+		}
+		switch {
+		case coef > 0 && lo != nil:
+			out = out.Add(Const(coef * *lo))
+		case coef < 0 && hi != nil:
+			out = out.Add(Const(coef * *hi))
+		default:
+			return Ineq{}, false
+		}
+		changed = true
+	}
+	if !changed {
+		return g, true
+	}
+	return Ineq{out, g.Why + " (internal values replaced by their bounds)"}, len(out.C) > 0
 }
